@@ -57,6 +57,36 @@ Stronger oracle (round 3b): after every accepted call ``oracle_data``, read by
 column LABEL, must hold exactly the labelled samples handed over so far in this
 round (values as floats; dtypes and the buffer's own column order are free).
 
+Families added in round 4 (the caller re-uses its containers; labels
+``MD3|<id>|fam-reuse|...`` and ``MD3|<id>|fam-reuse-array|...``):
+
+  reuse        the harness keeps ONE DataFrame per call shape (update sample,
+               labelled sample in each column order, each illegal shape) and ONE
+               reference frame; before a call it overwrites the cells of that
+               frame in place with the call's values, passes the same object
+               again, and after the call overwrites every cell with a sentinel
+               (-99.5 / -99) — the caller recycling its row buffer.  The
+               reference frame is overwritten the same way right after
+               set_reference.  8 configurations over 7 column schemes, both
+               alphabets, row labels 0 and running.  The buffers are part of
+               the explored state, so a snapshot copies detector and buffers
+               together (identity aliasing survives the copy).
+  reuse-array  the same with ONE float ndarray per call shape and a new
+               zero-copy frame around it for every call
+               (``DataFrame(buffer, copy=False)``): what MD3 keeps may be a live
+               numpy view of the caller's array even where pandas'
+               copy-on-write protects frame-to-frame sharing.  A deepcopy
+               snapshot cuts such a view, therefore everything MD3 has stored
+               (oracle_data, the reference frames) is read in the SAME step,
+               after the sentinel overwrite; from-scratch re-execution every
+               5th maximal path.
+
+Stronger oracle (round 4): "adopts them as the new reference" — when a round
+completes, ``reference_batch_features`` / ``reference_batch_target``, read by
+column LABEL, must hold exactly the labelled samples of that round; in the reuse
+families this (and, from the first call on, the same for the initial reference
+batch) is checked after every accepted call.
+
 oracle_data_length_required < k: the labelled samples cannot be summarised over
 k folds, so the property cannot be met once L labels have arrived; the check
 accepts only an up-front refusal of the configuration (ValueError from the
@@ -254,12 +284,18 @@ SCHEMES = {
     "empty-first": {"order": ["y", "x", "z"], "lab": {"x": "x", "z": "z", "y": ""}, "new": "target", "extra": "w",
                     "np": False},
 }
+# schemes used by the reuse families only (not part of family "cols")
+SCHEMES_EXTRA = {
+    # string labels on an all-float, ndarray-built frame
+    "np-xzy": {"order": ["x", "z", "y"], "lab": _STR, "new": "target", "extra": "w", "np": True},
+}
 BASE_SCHEME = "xzy"
 PERMS = list(itertools.permutations(range(3)))  # PERMS[0] is the identity
 
 
 def _scheme(cfg):
-    return SCHEMES[cfg.get("cols", BASE_SCHEME)]
+    name = cfg.get("cols", BASE_SCHEME)
+    return SCHEMES[name] if name in SCHEMES else SCHEMES_EXTRA[name]
 
 
 def _label_of(sch, role):
@@ -308,6 +344,62 @@ def _ref_frame(cfg):
         # the batch is a slice of a longer frame: row labels 50, 51, ...
         df.index = range(50, 50 + len(df))
     return df
+
+
+def _ref_rows(cfg):
+    """the reference batch as rows by role (what _ref_frame puts into the frame)"""
+    rows, _ = _ref_spec(cfg)
+    return [{"x": float(x), "z": float(i % 2), "y": int(y)} for i, (x, y) in enumerate(rows)]
+
+
+# ---------------------------------------------------------------------------
+# families "reuse" / "reuse-array": the caller's containers.  cfg["reuse"] = "frame": one DataFrame object per call
+# shape, refilled cell by cell; "array": one float ndarray per call shape with a new zero-copy frame around it per call.
+# ---------------------------------------------------------------------------
+SENTINEL_F = -99.5
+SENTINEL_I = -99
+
+
+def _buf_key(meth, df):
+    return (meth, tuple(repr(c) for c in df.columns), len(df))
+
+
+def _scribble(buf):
+    """the caller recycles its container: every cell is overwritten in place"""
+    if isinstance(buf, np.ndarray):
+        buf[...] = SENTINEL_F
+        return
+    for j, dt in enumerate(buf.dtypes):
+        v = SENTINEL_F if dt.kind == "f" else SENTINEL_I
+        for i in range(len(buf)):
+            buf.iat[i, j] = v
+
+
+def _through_buffer(cfg, bufs, meth, df):
+    """-> the frame handed to MD3 for this call: the values, labels and dtypes of ``df``, in the caller's ONE container
+    for calls of this shape (created at first use, otherwise overwritten in place)."""
+    key = _buf_key(meth, df)
+    if cfg["reuse"] == "array":
+        assert all(dt.kind == "f" for dt in df.dtypes), "array-backed frames are all-float (np schemes)"
+        arr = bufs.get(key)
+        if arr is None:
+            arr = bufs[key] = np.empty(df.shape, dtype=float)
+        arr[...] = df.to_numpy()
+        out = pd.DataFrame(arr, columns=df.columns, index=df.index, copy=False)
+        # the family is what it says only if the frame is a live view of the caller's array
+        assert np.shares_memory(out.to_numpy(), arr), "DataFrame(ndarray, copy=False) copied the buffer"
+        return out
+    buf = bufs.get(key)
+    if buf is None:
+        buf = bufs[key] = df.copy()
+        return buf
+    assert list(buf.dtypes) == list(df.dtypes) and list(buf.columns) == list(df.columns)
+    for j in range(df.shape[1]):
+        for i in range(len(df)):
+            buf.iat[i, j] = df.iat[i, j]
+    if not buf.index.equals(df.index):
+        buf.index = df.index
+    return buf
 
 
 def _frame_hash(det):
@@ -465,7 +557,15 @@ class MD3System(System):
                     k=k,
                     oracle_data_length_required=L,
                 )
-            det.set_reference(_ref_frame(cfg), target_name=_scheme(cfg)["lab"]["y"])
+            bufs = {}
+            if cfg.get("reuse"):
+                # the caller's reference frame lives on in the caller's hands and is recycled right after the call
+                ref = _through_buffer(cfg, bufs, "set_reference", _ref_frame(cfg))
+                det.set_reference(ref, target_name=_scheme(cfg)["lab"]["y"])
+                bufs["reference frame object"] = ref
+                _scribble(bufs[_buf_key("set_reference", ref)])
+            else:
+                det.set_reference(_ref_frame(cfg), target_name=_scheme(cfg)["lab"]["y"])
         except ValueError as e:
             if undefined:
                 # k-fold statistics of L < k labelled samples do not exist: refusing the
@@ -474,7 +574,17 @@ class MD3System(System):
             return {"init_error": "%s: %s" % (type(e).__name__, str(e)[:200])}
         except Exception as e:  # noqa: BLE001 - becomes a Violation at the first step
             return {"init_error": "%s: %s" % (type(e).__name__, str(e)[:200])}
-        return {"det": det, "model": model, "fh": _frame_hash(det), "rows": []}
+        state = {"det": det, "model": model, "fh": _frame_hash(det), "rows": [], "refrows": _ref_rows(cfg)}
+        if cfg.get("reuse"):
+            # one container per call shape of the alphabet, all holding the sentinel between calls
+            for ev in ALPHABETS[cfg.get("alphabet", "base")]:
+                meth, df, _, _ = _event(cfg, model, ev)
+                _through_buffer(cfg, bufs, meth, df)
+            for key, buf in bufs.items():
+                if key != "reference frame object":
+                    _scribble(buf)
+            state["bufs"] = bufs
+        return state
 
     def alphabet(self, cfg, state, pos):
         if "config_refused" in state:
@@ -526,6 +636,37 @@ class MD3System(System):
             )
         ctx.count("oracle_data_checked_by_name")
 
+    # -- adopted reference --------------------------------------------------------
+    @staticmethod
+    def _check_reference_rows(cfg, det, refrows, ev, ctx):
+        """"adopts them as the new reference": the reference batch MD3 holds (``reference_batch_features`` /
+        ``reference_batch_target``), read by column NAME, is the batch handed to set_reference or, after a completed
+        round, the labelled samples of that round, in order."""
+        feats = getattr(det, "reference_batch_features", None)
+        targ = getattr(det, "reference_batch_target", None)
+        if not isinstance(feats, pd.DataFrame) or not isinstance(targ, pd.DataFrame):
+            ctx.count("reference_batch_not_frames")
+            return
+        sch = _scheme(cfg)
+        try:
+            got = {
+                "x": [float(v) for v in feats[sch["lab"]["x"]].tolist()],
+                "z": [float(v) for v in feats[sch["lab"]["z"]].tolist()],
+                "y": [float(v) for v in targ[sch["lab"]["y"]].tolist()],
+            }
+        except Exception as e:  # noqa: BLE001
+            got = "%s: %s" % (type(e).__name__, str(e)[:120])
+        want = {r: [float(row[r]) for row in refrows] for r in ("x", "z", "y")}
+        if got != want:
+            raise Violation(
+                "MD3-reference-rows",
+                "after %s the reference batch held by MD3, read by column name, is not the batch it was given / the "
+                "labelled samples it adopted" % ev,
+                expected=want,
+                observed=got,
+            )
+        ctx.count("reference_rows_checked_by_name")
+
     # -- one event ---------------------------------------------------------------
     def step(self, cfg, state, ev, pos, ctx):
         if "init_error" in state:
@@ -548,6 +689,9 @@ class MD3System(System):
         old = state["model"].stats
         n_before = len(state["model"].labels)
         before = state["fh"]
+        reuse = cfg.get("reuse")
+        if reuse:
+            df = _through_buffer(cfg, state["bufs"], meth, df)
         rng.seed_step(ctx.seed, cfg["id"], pos)
         exc = None
         try:
@@ -556,6 +700,10 @@ class MD3System(System):
             exc = "ValueError"
         except Exception as e:  # noqa: BLE001
             exc = "%s: %s" % (type(e).__name__, str(e)[:120])
+        if reuse:
+            # the caller recycles the container before anything is read back from the detector
+            _scribble(state["bufs"][_buf_key(meth, df)])
+            ctx.count("calls_through_reused_%s" % reuse)
         obs = _observe(det, exc)
         after = state["fh"] = _frame_hash(det)
 
@@ -614,8 +762,19 @@ class MD3System(System):
         if kind == "label":
             rows.append(row)
         elif kind in ("confirmed", "rejected"):
+            state["refrows"] = rows + [row]
             del rows[:]
         self._check_oracle_data(cfg, det, rows, ev, ctx)
+        if reuse or kind in ("confirmed", "rejected"):
+            self._check_reference_rows(cfg, det, state["refrows"], ev, ctx)
+            if kind in ("confirmed", "rejected"):
+                ctx.count("adopted_reference_rows_checked")
+        if reuse and kind in ("label", "confirmed", "rejected"):
+            ctx.count("reused_%s_label_%s" % (reuse, "first_of_round" if n_before == 0 else "later_in_round"))
+            if tuple(df.columns) == tuple(_columns(cfg)):
+                ctx.count("reused_%s_label_in_reference_column_order" % reuse)
+            else:
+                ctx.count("reused_%s_label_in_another_column_order" % reuse)
 
         if kind in ("label", "confirmed", "rejected") and perm != 0:
             ctx.mark("label_columns_permuted_first_of_round" if n_before == 0
@@ -766,6 +925,24 @@ IDX_SETTINGS = [
     ("np-t0", "base", "R8", 2, 3, 3),
     ("int-t2", "base", "R7", 2, 3, 3),
 ]
+# round 4: the caller re-uses its containers.  (kind, scheme, alphabet, reference batch, sensitivity, oracle length, k,
+# row labels)
+REUSE_DEPTH = {"quick": 6, "thorough": 8}
+REUSE_SETTINGS = [
+    ("frame", "xzy", "perm", "R8", 0.5, 3, 2, None),
+    ("frame", "xzy", "base", "R6", 0.5, 2, 2, None),
+    ("frame", "yxz", "perm", "R6", 2, 3, 3, None),
+    ("frame", "xyz", "perm", "R6", 0.5, 3, 2, None),
+    ("frame", "int-t1", "base", "R7", 2, 3, 3, None),
+    ("frame", "np-t2", "perm", "R8", 2, 3, 3, None),
+    ("frame", "empty-first", "base", "R8", 0.5, 2, 2, None),
+    ("frame", "xzy", "base", "R8", 0.5, 3, 2, "stream"),
+    ("array", "np-xzy", "perm", "R8", 0.5, 3, 2, None),
+    ("array", "np-t0", "base", "R6", 0.5, 2, 2, None),
+    ("array", "np-t2", "perm", "R6", 2, 3, 3, None),
+    ("array", "np-xzy", "base", "R8", 2, 3, 3, "stream"),
+]
+REUSE_FAMILY = {"frame": "reuse", "array": "reuse-array"}
 ZREF_SETTINGS = {"Z6": [2, 3], "Z6m": [3], "Z6a": [3], "Z9": [3], "Z10": [2, 3], "Z15": [3]}  # oracle lengths
 FLAT_Q = {2: [3, 5], 3: [3, 5]}  # k -> fold sizes of the flat0 reference batches
 FLATL_SHAPES = [(2, 3), (3, 3)]  # (k, fold size): full star;  FLATL_EXTRA: two points each
@@ -856,6 +1033,13 @@ def _family_cfgs(tier):
     for (sch, alpha, r, s, L, k) in IDX_SETTINGS:
         c = cfg_(family="idx", ref=r, sens=s, L=L, k=k, cols=sch, alphabet=alpha, index="stream")
         out.append((c, {"depth": FAM_DEPTH["idx"][tier], "tag": "%s,%s,%s,s%s,L%s,k%d" % (sch, alpha, r, s, L, k)}))
+    # reuse / reuse-array: every call of the history goes through the caller's one container for that call shape
+    for (kind, sch, alpha, r, s, L, k, index) in REUSE_SETTINGS:
+        c = cfg_(family=REUSE_FAMILY[kind], reuse=kind, ref=r, sens=s, L=L, k=k, cols=sch, alphabet=alpha)
+        if index:
+            c["index"] = index
+        out.append((c, {"depth": REUSE_DEPTH[tier], "validate_every": 5 if kind == "array" else 53,
+                        "tag": "%s,%s,%s,s%s,L%s,k%d%s" % (sch, alpha, r, s, L, k, ",rows-" + index if index else "")}))
     # sens0: sensitivity 0 (every deviation warns, every accuracy drop is a drift)
     for r in ("R6", "R7", "R8"):
         for k in FOLDS:
@@ -999,7 +1183,7 @@ def tasks(tier, seed):
                     "depth": f["depth"],
                     "label": label,
                     "cost": 2 ** f["depth"] * (2 if cfg.get("alphabet") == "perm" else 1),
-                    "validate_every": 101,
+                    "validate_every": f.get("validate_every", 101),
                 }
             )
     return out
@@ -1044,6 +1228,21 @@ REQUIRED = [
     "adopted_zero_md_spread_nondyadic",
     "adopted_zero_acc_spread_nondyadic",
     "confirmation_with_default_parameters",
+    # round 4 (MD3 draws no random numbers: none of these depends on VERIF_SEED)
+    "family:reuse",
+    "family:reuse-array",
+    "calls_through_reused_frame",
+    "calls_through_reused_array",
+    "reused_frame_label_first_of_round",
+    "reused_frame_label_later_in_round",
+    "reused_frame_label_in_reference_column_order",
+    "reused_frame_label_in_another_column_order",
+    "reused_array_label_first_of_round",
+    "reused_array_label_later_in_round",
+    "reused_array_label_in_reference_column_order",
+    "reused_array_label_in_another_column_order",
+    "reference_rows_checked_by_name",
+    "adopted_reference_rows_checked",
 ] + ["cols:" + s for s in SCHEMES if s != BASE_SCHEME]
 
 TIME_BUDGET = {"quick": 600, "thorough": 3000}
